@@ -18,6 +18,8 @@ func c20(c *Ctx) {
 	r.Explain = "C20 (deterministic depth-first request order): decides that nothing in the code that can reach a block load makes the order of loads depend on anything but the DAG — (R20.1) no function from which a load is reachable ranges over a Go map with a load-reaching body, starts a goroutine, selects, or reads clock/random state; (R20.2) every link handed to a loader is the element just yielded by a forward dag-pb links iterator (or the hash-selected bucket on the lookup path), and the readers given to io.MultiReader are the slice appended to in link order, passed on without sort or reversal; (R20.3) descent is depth-first: the walk recurses into the loaded child in the same iteration before the links iterator advances, and the sharded list iterator advances its own links only when no child cursor is active. io.MultiReader reading its readers sequentially is an axiom. Not decided: go-ipld-prime's root-to-target order for path traversals."
 	r.Rule("R20.1", "in every reader-side function that reaches a block load: no map range whose body reaches a load, no go/select, no clock/random read (positive controls must fire)")
 	r.Rule("R20.2", "the link argument of every loader call is the value yielded by Next() of a forward links iterator in the same function (or the result of the hash-bucket selection); io.MultiReader receives the slice that the children loop appended to, unmodified")
+	r.Rule("R20.4", "nothing is requested before it is asked for: the \"unixfs\" reifier and every member of the lazy reifier table cannot reach a block load (a table entry swapped for its preload sibling requests a whole subtree when a path merely passes through)")
+	r.Rule("R20.5", "every child is requested: the single-block reader is chosen exactly when the node has no links (same check as R4.10) — a node with links treated as childless never requests them")
 	r.Rule("R20.3", "depth first: after a child is loaded, every path back to the loop header passes the recursive walk of that child; the list iterator advances the parent's links only on the edge where its child cursor is nil")
 
 	fetch := c.G.Fetchers(core.ReaderPkgs)
@@ -237,6 +239,40 @@ func c20(c *Ctx) {
 			}
 			r.Check(o.Status == core.Discharged, "R20.2", strings.Replace(o.Key, "/skip-before-open", "/children-stay-deferred", 1), o.Pos, "only the child containing the offset is opened while the stream is assembled; later children load as the MultiReader reaches them", "children are opened while the stream is assembled (breadth-first requests): "+o.Detail)
 		}
+	}
+
+	// ---- R20.4 / R20.5
+	{
+		lazy, _, lazyName, _, okT := c.lazyAndPreloadTables()
+		reg, _ := c.reifierRegistry()
+		if !okT || reg["unixfs"] == nil {
+			r.Break("cannot identify the lazy reifier table from the KnownReifiers registry")
+		} else {
+			n4 := 0
+			subjects := []*ssa.Function{reg["unixfs"]}
+			for _, e := range lazy {
+				if e.Fn != nil {
+					subjects = append(subjects, e.Fn)
+				}
+			}
+			seenS := map[*ssa.Function]bool{}
+			for _, f := range subjects {
+				if seenS[f] {
+					continue
+				}
+				seenS[f] = true
+				n4++
+				key := core.FuncName(f) + "/requests-nothing"
+				if reach[f] {
+					path := c.G.PathTo(f, fetch)
+					r.Violate("R20.4", key, c.P.Pos(f.Pos()), "a member of the lazy table ("+lazyName+") / the lazy reifier can reach a block load: "+core.PathString(path)+" — blocks are requested at reification time, before and outside the depth-first order of use")
+				} else {
+					r.OK("R20.4", key, c.P.Pos(f.Pos()), "cannot reach a block load")
+				}
+			}
+			r.Floor("R20.4", n4, 4)
+		}
+		c.checkChildlessDispatch("R20.5")
 	}
 
 	// ---- R20.3
